@@ -803,7 +803,7 @@ def plan (tier, seed):
            for i in range(len(CTL_DFS))] +
           [dict(mode="iow_enum", shard=i, nshards=4, length=5) for i in range(4)] +
           [dict(mode="iow_rand", n=60000, sub=i) for i in range(4)] +
-          [dict(mode="ctl_mass", sizes=[s_]) for s_ in (130, 520, 1030, 2050, 4100, 8200, 16400, 33000)])
+          [dict(mode="ctl_mass", sizes=[s_]) for s_ in (130, 520, 1030, 2050, 4100, 8200)])
 
 
 def run (spec, rep):
